@@ -411,3 +411,8 @@ Arguments JobPre {HX JX SX MX} j.
 Arguments JobPost {HX JX SX MX} j.
 Arguments job_events {HX JX SX MX} j.
 Arguments ex_init {HX JX SX MX MT OT CT IT ST DT JT}.
+Arguments r_shellcheck {HX JX SX MX diag} sc_run.
+Arguments r_pyflakes {HX JX SX MX diag} py_run.
+Arguments r_id {HX JX SX MX diag} id_job id_conv id_dup.
+Arguments r_runnerlabel {HX JX SX MX diag} rl_one rl_many.
+Arguments r_jobneeds {HX JX SX MX diag} jn_needs_dups jn_dup_job jn_post.
